@@ -65,6 +65,7 @@ def run(ctx, col, tier):
     w, loop, handle = got
     from .c01 import r_capture
     col.guard(r_capture, ctx, col, "R-CAPTURE")
+    col.guard(r_rowlang, ctx, col)
 
     # ---- R-EXC: explicit raise sites + the decode error of the iteration
     raises = [n for n in own_nodes(p) if isinstance(n, ast.Raise)]
@@ -315,3 +316,44 @@ def reader_handle(ctx, col):
                                                                 and isinstance(it.args[0], ast.Name) and it.args[0].id == handle)
     col.shape(direct, "R-HANDLE", p.qualname, p.loc(loop), "the line loop iterates the handle itself", norm_src(it)[:60],
               f"the loop iterates `{norm_src(it)[:60]}`, not the handle: how the text is cut into lines is no longer the handle's", stmt="h:iter")
+
+
+
+def r_rowlang(ctx, col):
+    """A line is accepted as a data row only if it is made of numbers: the language of the reader's row regex (folded, as it is applied:
+    search / match) is included in the lines over digits, signs, dots, exponent markers, blanks (and the comma, which the historic class
+    `+-.` of the ignored-fields group spans).  A row regex that accepts a letter anywhere -- a wildcard tail, a dropped anchor that lets the
+    match start after junk -- reads a malformed line as a shorter, valid one instead of raising."""
+    from .c01 import reader_patterns
+    from .. import relang
+    from ..fold import Unfoldable
+    from ..model import AnalysisError as _AE
+    col.rule("R-ROWLANG", "only lines made of numbers are data rows: L(reader row regex, as applied) is included in the lines over digits, sign, dot, "
+             "exponent marker and blanks (regex-language inclusion by automata product); a line containing any other character is rejected (and so raises)",
+             floor=1, exhaustive=True)
+    try:
+        p, re_assign, pats = reader_patterns(ctx)
+    except (Unfoldable, _AE) as e:
+        col.unresolved("R-ROWLANG", "swcgeom.core.swc_utils.io.parse_swc", "", "reader regex", str(e), stmt="rowlang")
+        return
+    uses = [n for n in own_nodes(p) if isinstance(n, ast.Call) and isinstance(n.func, ast.Attribute) and isinstance(n.func.value, ast.Name) and n.func.value.id == "re_swc"]
+    methods = {u.func.attr for u in uses}
+    if not methods or methods - {"search", "match", "fullmatch"}:
+        col.unresolved("R-ROWLANG", p.qualname, p.loc(), "reader regex application", f"{methods}", stmt="rowlang")
+        return
+    allowed = r"[\s+\-.,0-9eE]*"
+    for tag, pat in pats.items():
+        try:
+            # the reader's language as applied: search = anything may precede the match, match = anything may follow an unanchored end
+            lang = pat
+            if "search" in methods and not pat.startswith("^"):
+                lang = "(?:.|\\n)*" + lang
+            if not pat.endswith("$") and "fullmatch" not in methods:
+                lang = lang + "(?:.|\\n)*"
+            inc, cex, nstates = relang.included(lang, allowed)
+        except (relang.UnsupportedRegex, Exception) as ex:  # noqa: BLE001
+            col.unresolved("R-ROWLANG", p.qualname, p.loc(re_assign), f"row language ({tag})", str(ex)[:120], stmt=f"rowlang:{tag}")
+            continue
+        col.check(inc, "R-ROWLANG", p.qualname, p.loc(re_assign), f"every line the row regex accepts is made of numbers ({tag})", f"{nstates} product states",
+                  f"the row regex accepts {cex!r}: a line that is no data row is read as one (junk after or before the columns is swallowed) instead of raising",
+                  stmt=f"rowlang:{tag}", definite=True)
